@@ -140,6 +140,8 @@ def generate(streams: core.Streams, tier: str) -> dict:
                 targets.append(corrs[-1]["name"])
             corrs.append(gen.gen_correlation(w, f"K{j}", targets, name=f"corr_{j}", generate=True))
     sc["correlations"] = corrs
+    # the same collection object converted once more by the same backend (drawn last); the last pass is judged
+    sc["passes"] = 2 if gen.chance(s, 0.2) else 1
     return sc
 
 
@@ -165,6 +167,19 @@ def _load(sc: dict, docs: list[dict], corrs: list[dict] | None = None) -> Any:
     return coll
 
 
+def _convert_passes(sc: dict, b: Any, coll: Any) -> dict:
+    """convert() as many times as the scenario says, with the same backend and the same collection
+    object; result and error records of the last pass."""
+    from sigsim import world
+
+    res: dict = {}
+    for _ in range(int(sc.get("passes", 1))):
+        start = len(b.errors)
+        res = world.capture(lambda: b.convert(coll, sc["format"]))
+        res["errors"] = world.errors_record(b.errors, start)
+    return res
+
+
 def _alone(args: tuple[dict, int]) -> dict:
     """Fresh world: one rule (plus the filters), fresh backend, fresh pipeline, same fault plan."""
     from sigsim import world
@@ -176,8 +191,7 @@ def _alone(args: tuple[dict, int]) -> dict:
     except Exception as e:  # load rejection: outside this property
         return {"unloadable": world.exc_record(e)}
     b = _backend(sc, True)
-    res = world.capture(lambda: b.convert(coll, sc["format"]))
-    res["errors"] = world.errors_record(b.errors)
+    res = _convert_passes(sc, b, coll)
     res["fired"] = [f"{x['stage']}:{x['exc']}" for x in b.fault_fired]
     res["swapped"] = b.probe_swapped_raise
     return res
@@ -193,7 +207,9 @@ def _strict(args: dict) -> dict:
         coll = _load(sc, docs, sc.get("correlations"))
     except Exception as e:
         return {"loadfail": world.exc_record(e)}
-    return world.capture(lambda: b.convert(coll, sc["format"]))
+    res = _convert_passes(sc, b, coll)
+    res.pop("errors", None)
+    return res
 
 
 def execute(scenario: dict) -> dict:
@@ -260,8 +276,7 @@ def execute(scenario: dict) -> dict:
             except Exception:
                 pass
     if loaded:
-        got = world.capture(lambda: b.convert(coll, sc_eff["format"]))
-        got["errors"] = world.errors_record(b.errors)
+        got = _convert_passes(sc_eff, b, coll)
     # ---- reference from the alone worlds
     want_queries: list[Any] = []
     want_errors: list[dict] = []
@@ -319,6 +334,8 @@ def execute(scenario: dict) -> dict:
             probes["failing_rule_last"] = 1
         if any(0 < p < len(classes) - 1 for p in pos):
             probes["failing_rule_middle"] = 1
+    if int(sc.get("passes", 1)) > 1:
+        probes["collection_converted_twice_by_same_backend"] = 1
     if corrs:
         probes["with_correlation_rules"] = 1
     if sc_eff.get("filters"):
@@ -520,6 +537,10 @@ def shrink(sc: dict) -> Iterable[dict]:
                     c = copy.deepcopy(sc)
                     del c["pipeline"]["transformations"][j][k]
                     yield c
+    if int(sc.get("passes", 1)) > 1:
+        c = copy.deepcopy(sc)
+        c["passes"] = 1
+        yield c
     if sc["format"] != "default":
         c = copy.deepcopy(sc)
         c["format"] = "default"
